@@ -161,3 +161,32 @@ Definition persist_by (m : machine) (s : st) (fs : list pfield) : option snap :=
 (* the fields the source writes, read this way, are the model's snapshot *)
 Theorem persist_bridge m s : persist_by m s persist_fields = Some (persist m s).
 Proof. reflexivity. Qed.
+
+(* ---------------- the round trip, stated over the SOURCE's pieces only ---------------- *)
+From XSM Require Import Proofs.SnapP.
+From Coq Require Import Sorting.Permutation.
+
+Theorem source_round_trip m s sn :
+  wf m = true -> Forall (fun x => x < size m) (s_cfg s) -> closed m (s_cfg s) -> NoDup (s_cfg s) ->
+  Forall (fun e => snd e <> []) (s_hist s) -> NoDup (map fst (s_hist s)) -> hist_known m (s_hist s) = true ->
+  persist_by m s persist_fields = Some sn ->
+  exists r, restore_src m sn = Some r
+    /\ Permutation (s_cfg r) (s_cfg s) /\ (forall p, hist_get (s_hist r) p = hist_get (s_hist s) p)
+    /\ s_ctx r = s_ctx s /\ s_status r = s_status s /\ s_output r = s_output s /\ s_queue r = [] /\ s_pending r = [].
+Proof.
+  intros Hwf Hlt Hcl Hnd Hne Hk1 Hk2 Hp.
+  rewrite persist_bridge in Hp. injection Hp as <-.
+  destruct (restore_persist_succeeds m s Hlt) as [r' Hr'].
+  pose proof (restore_persist_fields m s Hlt Hcl Hnd Hne r' Hr') as (Pc & Ph & Px & Pst & Po & Pq & Pp & _).
+  pose proof (restore_bridge m (persist m s) Hwf) as B. cbn [persist sn_hist] in B. specialize (B Hk1 Hk2).
+  rewrite Hr' in B. destruct (restore_src m (persist m s)) as [a|]; [|contradiction].
+  destruct B as (Bc & Bh & Bx & Bst & Bo & Bq & Bp).
+  exists a. split; [reflexivity|]. repeat split.
+  - rewrite Bc. exact Pc.
+  - intros p. rewrite Bh, Ph. reflexivity.
+  - congruence.
+  - congruence.
+  - congruence.
+  - congruence.
+  - congruence.
+Qed.
